@@ -111,7 +111,8 @@ def gen_stmt(rng, vars_, labels):
         if kk < 0.34:
             return {"k": "la", "rd": rd, "var": name, "idx": idx if use_idx else None}
         if kk < 0.67:
-            return {"k": "ldv", "m": rng.choice(LD), "rd": rd or 6, "var": name, "idx": idx if use_idx else None}
+            # rd = x0 is legal in the documented grammar (t0 = &var, x0 unchanged); generated rarely: open finding K2
+            return {"k": "ldv", "m": rng.choice(LD), "rd": rd if (rd or rng.random() < 0.3) else 6, "var": name, "idx": idx if use_idx else None}
         return {"k": "stv", "m": rng.choice(ST), "rs1": rs1, "rs2": rs2 or 7, "var": name, "idx": idx if use_idx else None}
     return {"k": "nop"}
 
